@@ -26,7 +26,7 @@ CONSTANTS Callers,      \* set of caller ids
           None
 
 VARIABLES cfg,      \* [T, tries, bufcap, v4, xid : [Callers -> Xids], urgent, timed, maxCalls, wfault,
-                    \*  cancelChecksIdentity, timerPerIteration, timeoutCarriesOver, writeErrKeepsEntry]   (never changes)
+                    \*  cancelChecksIdentity, timerPerIteration, timeoutCarriesOver, writeErrKeepsEntry, fireRegisters]   (never changes)
           cs,       \* caller state: [Callers -> record]
           ents,     \* sequence of pending-map entries ever created:
                     \*   [ch, closed, done, owner, xid, hist]
@@ -106,6 +106,22 @@ TransmitFail(c) ==
     /\ IF cfg.writeErrKeepsEntry
        THEN Set(c, [cs[c] EXCEPT !.pc = "returned", !.res = "writeerr", !.retAt = now])
        ELSE Set(c, [cs[c] EXCEPT !.pc = "cancelpre", !.res = "writeerr"])
+    /\ UNCHANGED <<cfg, ents, pending, lp, cl, net, dgs, rxn, ctxDone, now>>
+
+\* a one-shot transmission that expects no answer through this client (nclient4's Release): nothing is registered,
+\* the call returns at once.  fireRegisters is the wrong design in which it goes through send() and forgets the entry.
+Fire(c) ==
+    /\ cs[c].pc = "idle" /\ ~cl.connClosed /\ (cfg.fireRegisters => LockFree)
+    /\ Set(c, [cs[c] EXCEPT !.pc = "returned", !.res = "fired", !.retAt = now, !.start = now,
+                             !.ent = IF cfg.fireRegisters /\ pending[cfg.xid[c]] = 0 THEN Len(ents) + 1 ELSE 0])
+    /\ IF cfg.fireRegisters /\ pending[cfg.xid[c]] = 0
+       THEN /\ ents' = Append(ents, [ch |-> <<>>, closed |-> FALSE, done |-> FALSE, owner |-> c, xid |-> cfg.xid[c], hist |-> <<>>])
+            /\ pending' = [pending EXCEPT ![cfg.xid[c]] = Len(ents) + 1]
+       ELSE UNCHANGED <<ents, pending>>
+    /\ UNCHANGED <<cfg, lp, cl, net, dgs, rxn, ctxDone, now>>
+FireFail(c) ==
+    /\ cs[c].pc = "idle" /\ (cl.connClosed \/ cfg.wfault)
+    /\ Set(c, [cs[c] EXCEPT !.pc = "returned", !.res = "writeerr", !.retAt = now, !.start = now])
     /\ UNCHANGED <<cfg, ents, pending, lp, cl, net, dgs, rxn, ctxDone, now>>
 
 \* the wait loop's select: any ready arm may be taken (Go chooses at random)
